@@ -175,7 +175,11 @@ OnReturn(C, m, exit, hang, stderrKind, failedList, skippedList, newRows, bannerA
           \cup V(hang \/ m.live = {} \/ m.aborted, "TerminatesWhenAllExited")
           \cup V(~normal \/ exit >= 0, "NoInternalError")
           \cup V(~normal \/ ((exit = 0) <=> allOk), "ExitZeroIffAllSucceeded")
-          \cup V(~normal \/ exit = 0 \/ failedList = trulyFailed, "FailedListExact")
+          \cup V(~normal \/ exit = 0 \/
+                 (IF C.stop
+                  THEN failedList # {} /\ failedList \subseteq trulyFailed
+                       /\ {t \in DOMAIN m.outcome : m.outcome[t] = "failed"} \subseteq failedList
+                  ELSE failedList = trulyFailed), "FailedListExact")
           \cup V(~normal \/ exit = 0 \/ C.stop \/ skippedList = shouldSkip, "SkippedListExact")
           \cup V(~normal \/ C.stop \/ \A t \in N : t \in DOMAIN m.outcome \/ t \in m.launchfail, "OneOutcomeEach")
           \cup V(~normal \/ C.stop \/ \A t \in N \ shouldSkip :
